@@ -114,6 +114,8 @@ impl TTLTicker {
                 self.shards[shard_index].write().retain(|key, expire_after| {
                     #[cfg(feature = "cached_verif")]
                     crate::cache::verif::point("sweep.entry");
+                    #[cfg(feature = "cached_verif")]
+                    crate::cache::verif::tap(|| format!("sweep.visit {}", key));
                     let has_not_expired = now.le(expire_after);
                     if !has_not_expired {
                         debug!("Key with id {} has expired", key);
